@@ -28,6 +28,12 @@ def main():
                 bad += 1
                 for f in res.failed[:10]:
                     print("  FAILED:", json.dumps(f)[:600])
+        else:
+            vf.gen_driver()
+            rc, out, _ = vf.lake_build(["driver"])      # Gen/Trxcon.lean may have changed
+            if rc != 0:
+                print("driver build failed:", out[-800:])
+                bad += 1
         corr = vf.Corr()
         trxcon_part.correspond(run, corr)
         print("correspond: %d cases, %d disagreements (%.0fs)" % (corr.evaluations, len(corr.disagreements), time.time() - t0))
